@@ -140,7 +140,7 @@ def observe(shape, with_queries=True, skip=()):
 FACE_INDEXED = ("equations", "normals", "neighbors", "get_face_area", "face_centroids")
 
 
-def canonical(obs):
+def _canonical_faces(obs):
     """Make label-dependent outputs comparable: face-indexed data keyed by the face's vertex set,
     faces as rotation-normalised cycles, simplices reduced to an invariant."""
     out = dict(obs)
@@ -176,6 +176,20 @@ def canonical(obs):
         out["simplices"] = {"count": len(sim), "total_area": float(ar.sum())}
     if "dihedral" in out:
         del out["dihedral"]  # depends on face numbering; dihedrals are compared through equations
+    return out
+
+
+def canonical(obs):
+    """canonical() plus polygon-specific normalisation: for a polygon whose normal is not exactly +z the
+    individual planar moments depend on an in-plane rotation that the class documents as unspecified, so
+    they are reduced to the rotation invariants (trace and determinant of the second-moment matrix)."""
+    out = _canonical_faces(obs)
+    nrm = obs.get("normal")
+    pm = obs.get("planar_moments_inertia")
+    if nrm is not None and pm is not None and not isinstance(pm, Raised) and not isinstance(nrm, Raised):
+        if not np.array_equal(np.asarray(nrm, dtype=float), [0.0, 0.0, 1.0]):
+            ix, iy, ixy = (float(t) for t in pm)
+            out["planar_moments_inertia"] = {"trace": ix + iy, "det_sqrt": float(np.sqrt(abs(ix * iy - ixy * ixy)))}
     return out
 
 
@@ -248,5 +262,9 @@ def _cmp(rec, name, x, y, L, three_d, sig, prefix, rtol):
     if "minimal_bounding" in name and "centered" not in name:
         rtol = max(rtol, 1e-5)  # miniball: randomised, iterates to a relative accuracy of ~1e-7
     floor = L**d if d else 1.0
-    mag = max(float(np.max(np.abs(ax))) if ax.size else 0.0, float(np.max(np.abs(ay))) if ay.size else 0.0, floor)
+    def _m(z):
+        z = np.abs(z[np.isfinite(z)])
+        return float(z.max()) if z.size else 0.0
+
+    mag = max(_m(ax), _m(ay), floor)
     rec.close(prefix + "equal", ax, ay, rtol * mag, s2)
